@@ -229,6 +229,26 @@ impl ShardSplitter {
             old_shard, progress.fence_token, next
         );
 
+        if next == SplitPhase::Preparation {
+            // Interrupted between persisting the initial progress and recording the end of
+            // phase 1: the split state may or may not have been stored. Store it if needed,
+            // then carry on from dual-write (run_from_phase does not execute phase 1).
+            if self.metadata.get_split_state(old_shard).await?.is_none() {
+                self.metadata
+                    .start_split(
+                        old_shard,
+                        progress.new_shards.clone(),
+                        progress.split_point.clone(),
+                    )
+                    .await?;
+            }
+            progress.completed_phase = Some(SplitPhase::Preparation);
+            self.persist_progress(&progress).await?;
+            self.run_from_phase(&mut progress, SplitPhase::DualWrite)
+                .await?;
+            return Ok(true);
+        }
+
         self.run_from_phase(&mut progress, next).await?;
         Ok(true)
     }
@@ -303,11 +323,14 @@ impl ShardSplitter {
     async fn run_cutover(&self, progress: &mut SplitProgress) -> Result<()> {
         let old_shard = &progress.old_shard.clone();
 
-        let split_state = self
-            .metadata
-            .get_split_state(old_shard)
-            .await?
-            .ok_or_else(|| crate::Error::Internal("No split in progress".to_string()))?;
+        let split_state = match self.metadata.get_split_state(old_shard).await? {
+            Some(state) => state,
+            // The split state is removed as the very last cutover step, after the old shard
+            // was deactivated: if it is gone and that step is recorded, a previous attempt
+            // completed the cutover but was interrupted before saying so.
+            None if progress.old_shard_deactivated => return Ok(()),
+            None => return Err(crate::Error::Internal("No split in progress".to_string())),
+        };
 
         if split_state.new_shards.len() != 2 {
             return Err(crate::Error::Internal(format!(
@@ -347,9 +370,17 @@ impl ShardSplitter {
                 min_time: old_metadata.min_time,
                 max_time: split_ts,
             };
-            self.metadata
-                .update_shard_metadata(&new_shard_a.shard_id, &new_shard_a, 0)
-                .await?;
+            // A previous attempt may have created the shard without recording it.
+            if self
+                .metadata
+                .get_shard_metadata(&new_shard_a.shard_id)
+                .await?
+                .is_none()
+            {
+                self.metadata
+                    .update_shard_metadata(&new_shard_a.shard_id, &new_shard_a, 0)
+                    .await?;
+            }
             progress.shard_a_created = true;
             self.persist_progress(progress).await?;
         }
@@ -368,9 +399,16 @@ impl ShardSplitter {
                 min_time: split_ts,
                 max_time: old_metadata.max_time,
             };
-            self.metadata
-                .update_shard_metadata(&new_shard_b.shard_id, &new_shard_b, 0)
-                .await?;
+            if self
+                .metadata
+                .get_shard_metadata(&new_shard_b.shard_id)
+                .await?
+                .is_none()
+            {
+                self.metadata
+                    .update_shard_metadata(&new_shard_b.shard_id, &new_shard_b, 0)
+                    .await?;
+            }
             progress.shard_b_created = true;
             self.persist_progress(progress).await?;
         }
